@@ -197,6 +197,12 @@ pub fn build(kinds: &[(usize, u32)], layout: usize, op: usize) -> Spreadsheet {
 /// with localSheetId is scoped to the sheet that holds it.
 pub fn annotations(b: &Spreadsheet) -> Value {
     let mut v = book_p(b, Opts { styles: false, annotations: true, dims: false });
+    canon_names(&mut v);
+    v
+}
+
+/// Canonicalise the defined names of a book dump by scope (see `annotations`).
+pub fn canon_names(v: &mut Value) {
     let mut global: Vec<Value> = vec![];
     let mut scoped: Vec<Value> = vec![];
     if let Some(a) = v["defined_names"].as_array() {
@@ -227,7 +233,6 @@ pub fn annotations(b: &Spreadsheet) -> Value {
     global.sort_by_key(|x| x.to_string());
     scoped.sort_by_key(|x| x.to_string());
     v["defined_names"] = json!({"global": global, "scoped": scoped});
-    v
 }
 
 fn classify(path: &str, l: &str, r: &str) -> String {
